@@ -75,12 +75,28 @@ func (self *StreamDecoder) Decode(val interface{}) (err error) {
 		// try skip
 		var x = 0
 		if y := native.SkipOneFast(&src, &x); y < 0 {
+			// keep the bytes around the failure, the buffer is released when reading fails
+			var serr error = io.ErrUnexpectedEOF
+			if code := types.ParsingError(-y); code != types.ERR_EOF {
+				if x < 0 || x >= len(src) {
+					x = len(src) - 1
+				}
+				lo, hi := x-16, x+16
+				if lo < 0 {
+					lo = 0
+				}
+				if hi > len(src) {
+					hi = len(src)
+				}
+				serr = SyntaxError{x - lo, string(self.buf[s+lo : s+hi]), code, ""}
+			}
 			if self.readMore() {
 				goto try_skip
 			}
-			if self.err == nil {
-				self.err = SyntaxError{e, self.s, types.ParsingError(-s), ""}
-				self.setErr(self.err)
+			if self.err == io.EOF {
+				// the input ended inside a value, or at bytes that cannot start one:
+				// this is not a clean end of the stream
+				self.err = serr
 			}
 			return self.err
 		} else {
